@@ -83,6 +83,15 @@ def component(path):
     return path.split(".")[0]
 
 
+def only_for(path):
+    """VERIF_ONLY selector of the harness section that produces the path."""
+    if "(cancelled while" in path:
+        return "race"
+    if path.startswith("core."):
+        return "consensus"
+    return component(path)
+
+
 def main():
     R = vp.Result("C18")
     R.assumptions = [
@@ -100,7 +109,7 @@ def main():
         try:
             rp = json.load(open(os.environ["VERIF_REPLAY"]))
             replay = rp.get("replay", rp)
-            env["VERIF_ONLY"] = component(replay["path"])
+            env["VERIF_ONLY"] = only_for(replay["path"])
             env["VERIF_TIER"] = "thorough"
         except (OSError, ValueError, KeyError) as e:
             R.broke("replay:cannot read replay file", str(e))
